@@ -48,6 +48,47 @@ def values(text, head=None):
                 cur.append(int(t))
 
 
+def values_stream(lines, head=None):
+    """values() over an iterable of lines (a file): constant memory.  No token spans a line in TLC's output."""
+    depth = 0
+    stack = []
+    cur = None
+    for line in lines:
+        for m in _tok.finditer(line):
+            t = m.group(0)
+            if t == '<<' or t == '{':
+                new = []
+                if depth:
+                    cur.append(new)
+                    stack.append(cur)
+                cur = new
+                depth += 1
+            elif t == '>>' or t == '}':
+                if depth == 0:
+                    continue
+                depth -= 1
+                if depth == 0:
+                    v = cur
+                    cur = None
+                    if head is None or (v and v[0] == head):
+                        yield v
+                else:
+                    cur = stack.pop()
+            elif t == ',':
+                continue
+            else:
+                if depth == 0:
+                    continue
+                if t[0] == '"':
+                    cur.append(t[1:-1])
+                elif t == 'TRUE':
+                    cur.append(True)
+                elif t == 'FALSE':
+                    cur.append(False)
+                else:
+                    cur.append(int(t))
+
+
 def tlc_lines(text):
     """Only the part of TLC's stdout that can contain PrintT output (drop banner noise with braces)."""
     out = []
